@@ -71,12 +71,14 @@ Fixpoint assoc {V} (k : string) (l : list (string * V)) : option V :=
 
 Record tables := mkTables {
   t_float : list (string * option float);   (* token -> float(token) or None (ValueError) *)
+  t_tofloat : list (string * option float); (* token -> datacard.to_float(token) or None *)
   t_norm : list (string * string);          (* token -> normalize_float(token) *)
   t_trs : list (Z * list float)             (* TR number -> 12 parameters *)
 }.
 
 Definition prims_of (t : tables) : prims float := {|
   fl := fun s => match assoc s (t_float t) with Some v => v | None => None end;
+  tf := fun s => match assoc s (t_tofloat t) with Some v => v | None => None end;
   tz := f_truncZ;
   rnd := f_roundZ;
   pw := f_pow;
